@@ -143,7 +143,8 @@ func (rt *c19RT) RoundTrip(r *http.Request) (*http.Response, error) {
 		if rt.uploadAnswer != "" {
 			return respond(rt.uploadAnswer)
 		}
-		return respond(`{"data":{"ok":true}}`)
+		eb, _ := json.Marshal(map[string]interface{}{"data": map[string]interface{}{"ok": true, "echo": call.Query}})
+		return respond(string(eb))
 	}
 	d := json.NewDecoder(bytes.NewReader(body))
 	d.UseNumber()
@@ -153,7 +154,8 @@ func (rt *c19RT) RoundTrip(r *http.Request) (*http.Response, error) {
 	}
 	out := make([]string, len(call.Batch))
 	for i := range out {
-		out[i] = `{"data":{"ok":true}}`
+		eb, _ := json.Marshal(map[string]interface{}{"data": map[string]interface{}{"ok": true, "echo": call.Batch[i]["query"]}})
+		out[i] = string(eb)
 	}
 	return respond("[" + strings.Join(out, ",") + "]")
 }
@@ -183,6 +185,7 @@ type c19Obs struct {
 	Parse parseObs
 	Steps [][]c19Call
 	Error string // Query returned an error / panicked
+	Misplaced string // a result of Query is not the answer to the request at that position
 }
 
 func c19Run(cs c19Case) (obs c19Obs, hc httpCase) {
@@ -218,8 +221,21 @@ func c19Run(cs c19Case) (obs c19Obs, hc httpCase) {
 					obs.Error = "Query panicked: " + fmt.Sprint(p)
 				}
 			}()
-			if _, err := q.Query(inputs); err != nil {
+			results, err := q.Query(inputs)
+			if err != nil {
 				obs.Error = "Query failed: " + err.Error()
+				return
+			}
+			// every answer names the operation it answers: result i must answer request i
+			for i, in := range inputs {
+				if i >= len(results) || results[i] == nil || fmt.Sprint(results[i]["echo"]) != in.Query {
+					got := "<missing>"
+					if i < len(results) && results[i] != nil {
+						got = fmt.Sprint(results[i]["echo"])
+					}
+					obs.Misplaced = fmt.Sprintf("result %d of MultiOpQueryer.Query answers %q, request %d is %q", i, clip(got, 60), i, clip(in.Query, 60))
+					break
+				}
 			}
 		}()
 		obs.Steps = append(obs.Steps, rt.calls)
@@ -344,6 +360,9 @@ func c19Oracle(cs c19Case, obs c19Obs) []c19Problem {
 	}
 	if obs.Parse.Kind != "ok" || cl.Invalid != "" {
 		return nil // not a well-formed request: the property says nothing (C07 covers the answer)
+	}
+	if obs.Misplaced != "" {
+		out = append(out, c19Problem{Detail: obs.Misplaced})
 	}
 	if obs.Error != "" {
 		out = append(out, c19Problem{Detail: obs.Error})
@@ -831,7 +850,7 @@ func c19Gen(r *hx.Rand, safe bool) c19Case {
 		for i := range data {
 			data[i] = byte(r.Intn(256))
 		}
-		cs.Files = append(cs.Files, mpFile{Key: strconv.Itoa(k), Filename: fmt.Sprintf("upload-%d%s", k, hx.Pick(r, []string{".bin", ".txt", " copy.pdf", "-é.png"})), Data: data})
+		cs.Files = append(cs.Files, mpFile{Key: strconv.Itoa(k), Filename: fmt.Sprintf("upload-%d%s", k, hx.Pick(r, []string{".bin", ".txt", " copy.pdf", "-é.png", "%20report.pdf", " 100%25-cotton.png", "+a&b=c.txt", ";v=1.dat"})), Data: data})
 		np := 1
 		if !safe && r.Chance(1, 3) {
 			np = r.Range(2, 3) // one file used at several positions
